@@ -215,10 +215,29 @@ theorem triggerGet_hand (s : KS) (g : EvId) (i : Int) (is : List Int) (hsz : 0 <
     triggerGet, scanGet, doGet, getItem, takeOut, KState.setItems, KState.trigger, KState.setOut, KState.schedule,
     KState.setEv, KState.triggered, KState.ev, dropGetQ, getD0_set, hsz, hgs, getD_push, getD_setIfInBounds, zero_eq', push_setIfInBounds_size]
 
-attribute [portk] deliverSt resumeArg body portDone portServe portPut srcLoop loadInt portLoop runBurst noteErr
+/-- the tail-drop test of `Port.put` for a byte limit: `qlimit is not None and byte_count > qlimit` -/
+def refuses (ql : Option Int) (byteCount : Int) : Bool :=
+  match ql with
+  | none => false
+  | some l => decide (l < byteCount)
+
+/-- `Port.put` with its two accepting branches merged -/
+theorem portPut_eq (size : Int → Nat) (ql : Option Int) (id : Int) (cont : Burst ℚ St) :
+    portPut size ql id cont =
+      loadInt cReceived fun n =>
+      .call (.store cReceived (.int (n + 1))) fun _ =>
+      loadInt cByteSize fun b =>
+      if refuses ql (b + (size id : Int)) then
+        loadInt cDropped fun d => .call (.store cDropped (.int (d + 1))) fun _ => cont
+      else portAccept size id b cont := by
+  cases ql with
+  | none => simp [portPut, refuses]
+  | some l => simp [portPut, refuses]
+
+attribute [portk] deliverSt resumeArg body portDone portServe portPut_eq portAccept srcLoop loadInt portLoop runBurst noteErr
   KState.emit afterBurst register KState.processed KState.setProc KState.addCb KState.setEv KState.ev KState.res
   openEvent closeEvent finishProc KState.trigger KState.setOut KState.schedule runCb List.foldl
-  cByteSize cReceived cBusy cBusySize storeId portProc srcProc storeRec
+  cByteSize cReceived cBusy cBusySize cDropped storeId portProc srcProc storeRec
   doCall_load doCall_store doCall_log doCall_timeout doCall_sput doCall_sget_miss doCall_sget_hit
   lookup_store plookup_set getD_push getD_setIfInBounds getD0_set push_setIfInBounds_size push_setIfInBounds_size' zero_eq'
 
